@@ -58,7 +58,7 @@ func (g *Gen) verifyFunction(fn *ssa.Function, c *Contract) (res *VCResult) {
 		tm := Term{n, srt, t}
 		f.vals[v] = tm
 		f.paramEntry[name] = tm
-		g.typeFacts("true", tm, st, true)
+		g.typeFacts("true", tm, g.now(st), true)
 		res.Inputs = append(res.Inputs, tm)
 	}
 	for _, p := range fn.Params {
@@ -66,11 +66,59 @@ func (g *Gen) verifyFunction(fn *ssa.Function, c *Contract) (res *VCResult) {
 	}
 	for _, p := range fn.FreeVars {
 		bind(p, p.Name())
+		if ptrElem(p.Type()) != nil {
+			// a captured variable lives in a cell allocated by the enclosing function: never nil
+			g.assume("true", fmt.Sprintf("(> %s 0)", f.vals[p].S))
+		}
 	}
 	f.entry = st.clone()
 	st0 := func(types.Type) *State { return f.entry }
 	env0 := g.frameEnv(f, st, nil)
 	env0.old = st
+	var tc *Contract
+	var tcEnv func(st *State, results []Term) *Env
+	if c != nil && c.Implements != "" {
+		pk := c.Key
+		if i := strings.Index(pk, ".("); i >= 0 {
+			pk = pk[:i]
+		} else {
+			pk = pk[:strings.LastIndex(strings.SplitN(pk, "$", 2)[0], ".")]
+		}
+		tc = g.contracts[pk+"."+c.Implements]
+		if tc == nil {
+			cerr("implements %s: no such contract", c.Implements)
+		}
+		tcEnv = func(st *State, results []Term) *Env {
+			e := g.frameEnv(f, st, results)
+			e.old = f.entry
+			nv := map[string]Arg{}
+			for k, v := range e.vars {
+				nv[k] = v
+			}
+			// positional parameters of the function type (receiver-less)
+			ps := fn.Params
+			if fn.Signature.Recv() != nil {
+				ps = ps[1:]
+			}
+			for k, n := range tc.Params {
+				if k < len(ps) {
+					nv[n] = e.vars[ps[k].Name()]
+				}
+			}
+			e.vars = nv
+			return e
+		}
+		// the function may be called wherever the function type's contract allows a call
+		var treq, freq []string
+		e0 := tcEnv(st, nil)
+		for _, r := range tc.Requires {
+			treq = append(treq, g.clauseEnv(e0, r))
+		}
+		for _, r := range c.Requires {
+			freq = append(freq, g.clauseEnv(env0, r))
+		}
+		g.obligeX("impl.pre", "post", "true", fmt.Sprintf("(=> %s %s)", and(treq...), and(freq...)), "requires of "+c.Implements+" imply the function's own requires", fn.Pos(), false)
+	}
 	if c != nil {
 		for _, r := range c.Requires {
 			g.assume("true", g.clauseEnv(env0, r))
@@ -124,6 +172,39 @@ func (g *Gen) verifyFunction(fn *ssa.Function, c *Contract) (res *VCResult) {
 				ens = append(ens, p.en)
 			}
 			g.oblige("nopanic", "nopanic", "true", not(or(ens...)), "no explicit panic / no callee panic reaches the caller", fn.Pos())
+		}
+		for _, pc := range c.Preserves {
+			var parts []string
+			all := append(append([]Exit{}, f.exits...), f.panics...)
+			for _, x := range all {
+				env := g.frameEnv(f, x.st, nil)
+				parts = append(parts, fmt.Sprintf("(=> %s %s)", x.en, g.preservedFormula(env, pc, f.entry, x.st)))
+			}
+			g.oblige(fmt.Sprintf("preserve#%d", pc.Idx), "post", "true", and(parts...), "preserves "+pc.Text, fn.Pos())
+		}
+		if tc != nil {
+			all := append(append([]Exit{}, f.exits...), f.panics...)
+			for _, pc := range tc.Preserves {
+				var parts []string
+				for _, x := range all {
+					parts = append(parts, fmt.Sprintf("(=> %s %s)", x.en, g.preservedFormula(tcEnv(x.st, nil), pc, f.entry, x.st)))
+				}
+				g.oblige(fmt.Sprintf("impl.preserve#%d", pc.Idx), "post", "true", and(parts...), c.Implements+" preserves "+pc.Text, fn.Pos())
+			}
+			for _, e := range tc.Ensures {
+				var parts []string
+				for _, x := range f.exits {
+					parts = append(parts, fmt.Sprintf("(=> %s %s)", x.en, g.clauseEnv(tcEnv(x.st, x.results), e)))
+				}
+				g.oblige(fmt.Sprintf("impl.post#%d", e.Idx), "post", "true", and(parts...), c.Implements+" ensures "+e.Text, fn.Pos())
+			}
+			if tc.NoPanic {
+				var ens []string
+				for _, p := range f.panics {
+					ens = append(ens, p.en)
+				}
+				g.oblige("impl.nopanic", "nopanic", "true", not(or(ens...)), c.Implements+" never panics", fn.Pos())
+			}
 		}
 		for _, e := range c.Exsures {
 			var parts []string
